@@ -15,15 +15,16 @@ def withCalls (base : Prog) (hist : List Call) : Prog :=
   hist.foldl (fun recv c => .call recv (callArgs c).1 (callArgs c).2) base
 
 mutual
-/-- what `eval(e.toSource())` evaluates, every constructor running under the current language `cur`:
-    the lemma is printed as a string literal, children as arguments, the history as method calls -/
-def progOf (cur : Lang) : Expr → Prog
-  | .term n lemma _ => withCalls (.term n.kind (.str (strAtom lemma)) cur) n.hist
-  | .phr n es => withCalls (.phr n.kind cur (progOfList cur es)) n.hist
-  | .dep n t ds => withCalls (.dep n.kind cur (progOf cur t) (progOfList cur ds)) n.hist
-def progOfList (cur : Lang) : List Expr → List Prog
+/-- what `eval(e.toSource())` evaluates when the language of the root is the current one: the lemma is printed as a
+    string literal, children as arguments, the history as method calls; every constituent gets its own language
+    (through `lang=` where it is not the root's) -/
+def progOf : Expr → Prog
+  | .term n lemma _ => withCalls (.term n.kind (.str (strAtom lemma)) n.lang) n.hist
+  | .phr n es => withCalls (.phr n.kind n.lang (progOfList es)) n.hist
+  | .dep n t ds => withCalls (.dep n.kind n.lang (progOf t) (progOfList ds)) n.hist
+def progOfList : List Expr → List Prog
   | [] => []
-  | e :: r => progOf cur e :: progOfList cur r
+  | e :: r => progOf e :: progOfList r
 end
 
 /-- `x.m1(a1).m2(a2)…` : the calls of a history applied in order; `none` = AttributeError -/
@@ -66,27 +67,26 @@ theorem build_withCalls (env : Env) (ctx : Lang) (base : Prog) (hist : List Call
       simp [replayCalls, hc]
 
 mutual
-/-- **the side conditions of the source round trip**, node by node: the constituent is of the current language and is
-    exactly what its recorded call history makes of what its constructor builds (from the printed lemma / from the
-    children): nothing in its state comes from elsewhere (an option propagated by an enclosing CP, a numeric lemma, an
-    `add()` that re-ordered …) -/
-def WFS (env : Env) (cur : Lang) : Expr → Prop
+/-- **the side conditions of the source round trip**, node by node: the constituent is exactly what its recorded call
+    history makes of what its constructor builds (from the printed lemma / from the children): nothing in its state
+    comes from elsewhere (an option propagated by an enclosing CP, a numeric lemma, an `add()` that re-ordered …) -/
+def WFS (env : Env) : Expr → Prop
   | .term n lemma info =>
-      replayCalls n.hist (mkTerm env cur n.kind (.str (strAtom lemma))) = some (.term n lemma info, 0)
-  | .phr n es => WFSList env cur es ∧ replayCalls n.hist (mkPhr n.kind cur es) = some (.phr n es, 0)
-  | .dep n t ds => WFS env cur t ∧ WFSList env cur ds ∧
-      replayCalls n.hist (mkDep n.kind cur t ds) = some (.dep n t ds, 0)
-def WFSList (env : Env) (cur : Lang) : List Expr → Prop
+      replayCalls n.hist (mkTerm env n.lang n.kind (.str (strAtom lemma))) = some (.term n lemma info, 0)
+  | .phr n es => WFSList env es ∧ replayCalls n.hist (mkPhr n.kind n.lang es) = some (.phr n es, 0)
+  | .dep n t ds => WFS env t ∧ WFSList env ds ∧
+      replayCalls n.hist (mkDep n.kind n.lang t ds) = some (.dep n t ds, 0)
+def WFSList (env : Env) : List Expr → Prop
   | [] => True
-  | e :: r => WFS env cur e ∧ WFSList env cur r
+  | e :: r => WFS env e ∧ WFSList env r
 end
 
 mutual
-theorem build_progOf (env : Env) (cur : Lang) : ∀ (e : Expr) (ctx : Lang), WFS env cur e →
-    build env ctx (progOf cur e) = .ok (e, 0)
+theorem build_progOf (env : Env) : ∀ (e : Expr) (ctx : Lang), WFS env e →
+    build env ctx (progOf e) = .ok (e, 0)
   | .term n lemma info, ctx, h => by
-    have hb : build env ctx (.term n.kind (.str (strAtom lemma)) cur) =
-        .ok ((mkTerm env cur n.kind (.str (strAtom lemma))).1, (mkTerm env cur n.kind (.str (strAtom lemma))).2) := by
+    have hb : build env ctx (.term n.kind (.str (strAtom lemma)) n.lang) =
+        .ok ((mkTerm env n.lang n.kind (.str (strAtom lemma))).1, (mkTerm env n.lang n.kind (.str (strAtom lemma))).2) := by
       simp [build]
     simp only [progOf]
     rw [build_withCalls env ctx _ n.hist _ _ hb]
@@ -94,30 +94,29 @@ theorem build_progOf (env : Env) (cur : Lang) : ∀ (e : Expr) (ctx : Lang), WFS
     simp [h]
   | .phr n es, ctx, h => by
     obtain ⟨hes, hr⟩ := h
-    have hl := buildList_progOf env cur es cur hes
-    have hb : build env ctx (.phr n.kind cur (progOfList cur es)) =
-        .ok ((mkPhr n.kind cur es).1, (mkPhr n.kind cur es).2) := by
+    have hl := buildList_progOf env es n.lang hes
+    have hb : build env ctx (.phr n.kind n.lang (progOfList es)) =
+        .ok ((mkPhr n.kind n.lang es).1, (mkPhr n.kind n.lang es).2) := by
       simp [build, hl]
     simp only [progOf]
     rw [build_withCalls env ctx _ n.hist _ _ hb]
     simp [hr]
   | .dep n t ds, ctx, h => by
     obtain ⟨ht, hds, hr⟩ := h
-    have h1 := build_progOf env cur t cur ht
-    have hl := buildList_progOf env cur ds cur hds
-    have hb : build env ctx (.dep n.kind cur (progOf cur t) (progOfList cur ds)) =
-        .ok ((mkDep n.kind cur t ds).1, (mkDep n.kind cur t ds).2) := by
+    have h1 := build_progOf env t n.lang ht
+    have hl := buildList_progOf env ds n.lang hds
+    have hb : build env ctx (.dep n.kind n.lang (progOf t) (progOfList ds)) =
+        .ok ((mkDep n.kind n.lang t ds).1, (mkDep n.kind n.lang t ds).2) := by
       simp [build, h1, hl]
     simp only [progOf]
     rw [build_withCalls env ctx _ n.hist _ _ hb]
     simp [hr]
-theorem buildList_progOf (env : Env) (cur : Lang) : ∀ (es : List Expr) (ctx : Lang), WFSList env cur es →
-    buildList env ctx (progOfList cur es) = .ok (es, 0)
+theorem buildList_progOf (env : Env) : ∀ (es : List Expr) (ctx : Lang), WFSList env es →
+    buildList env ctx (progOfList es) = .ok (es, 0)
   | [], _, _ => by simp [progOfList, buildList]
   | e :: r, ctx, h => by
     obtain ⟨he, hr⟩ := h
-    simp [progOfList, buildList, build_progOf env cur e ctx he, buildList_progOf env cur r ctx hr]
+    simp [progOfList, buildList, build_progOf env e ctx he, buildList_progOf env r ctx hr]
 end
-
 
 end Pyrealb.Expr
